@@ -74,7 +74,10 @@ def _dyne_cases(item, cfg, cutoff, n, out):
         else:
             res = eng.run(prog)
         return prog, res
+    sl, nsl = item.get("_slice", (0, 1))
     for ci, c in enumerate(item["hom"]):
+        if ci % nsl != sl:
+            continue
         m, phi, x0 = c["m"], _ang(c["a"]), _f(c["x"])
         rec = {"kind": "hom", "ci": ci, "m": m}
         try:
@@ -124,6 +127,8 @@ def _dyne_cases(item, cfg, cutoff, n, out):
         out.append(rec)
     if cfg in ("gaussian", "bosonic"):
         for ci, c in enumerate(item["het"]):
+            if ci % nsl != sl:
+                continue
             m = c["m"]
             al = complex(_f(c["al"][0]), _f(c["al"][1]))
             rec = {"kind": "het", "ci": ci, "m": m}
@@ -156,7 +161,10 @@ def _layout_cases(item, cfg, cutoff, n, out):
     from . import sfx
     hist = item["hist"]
     import strawberryfields.backends.gaussianbackend.backend as gb
+    sl, nsl = item.get("_slice", (0, 1))
     for ti, t in enumerate(item["tuples"]):
+        if ti % nsl != sl:
+            continue
         ms = t["ms"]
         vals = {m: (j + 1) / 4.0 for j, m in enumerate(ms)}
         rec = {"kind": "layout", "ti": ti, "ms": ms}
@@ -225,7 +233,10 @@ def _fock_count_cases(item, cfg, cutoff, n, out):
     st0 = sfx.engine(cfg, cutoff).run(prog0).state
     D = st0.cutoff_dim
     rho0 = np.asarray(st0.dm())
+    sl, nsl = item.get("_slice", (0, 1))
     for ti, t in enumerate(item["tuples"]):
+        if ti % nsl != sl:
+            continue
         ms = t["ms"]
         rec = {"kind": "count", "ti": ti, "ms": ms, "D": D, "trace0": float(np.real(st0.trace()))}
         try:
@@ -288,7 +299,9 @@ def _diag_subs(k):
     return "".join(L[i] * 2 for i in range(k)) + "->" + "".join(L[i] for i in range(k))
 
 
-def _run_one(item):
+def _run_one(job):
+    item, sl, nsl = job
+    item = dict(item, _slice=(sl, nsl))
     cfg, cutoff, n, parts = _CFG["cfg"], _CFG["cutoff"], _CFG["n"], _CFG["parts"]
     out = []
     try:
@@ -317,23 +330,25 @@ def c06(chk):
                        "quality of the samplers themselves is not examined", "photon counting on the Gaussian simulator returns samples only "
                        "(state documented as not updated); bosonic rejects photon counting; Fock accepts shots=1 only"]
     plans = [(3, 1, "e3", [("gaussian", None, ("dyne", "layout")), ("bosonic", None, ("dyne", "layout"))]),
-             (3, 0, "e3", [("fock", 8, ("layout", "count"))]),
-             (2, 0, "e2", [("fock", 12, ("dyne", "count")), ("fockmixed", 10, ("dyne", "layout")), ("gaussian", None, ("dyne", "layout")), ("bosonic", None, ("dyne",))]),
-             (3, 0, "x3", [("gaussian", None, ("dyne", "layout")), ("fock", 9, ("dyne", "layout"))])]
+             (3, 0, "e3", [("fock", 7, ("count",))]),
+             (2, 0, "e2", [("fock", 11, ("dyne", "count")), ("fockmixed", 9, ("layout",)), ("gaussian", None, ("dyne", "layout")), ("bosonic", None, ("dyne",))]),
+             (3, 0, "x3", [("gaussian", None, ("dyne", "layout")), ("fock", 8, ("layout",))])]
     if tier != "quick":
         plans = [(3, 1, "e3", [("gaussian", None, ("dyne", "layout")), ("bosonic", None, ("dyne", "layout"))]), (3, 0, "e3", [("fock", 8, ("dyne", "layout", "count"))]),
                  (2, 1, "e2", [("fock", 12, ("dyne", "count", "layout")), ("fockmixed", 10, ("dyne", "layout", "count")), ("gaussian", None, ("dyne", "layout")), ("bosonic", None, ("dyne",))]),
                  (3, 1, "x3", [("gaussian", None, ("dyne", "layout")), ("bosonic", None, ("dyne", "layout"))]), (3, 0, "x3", [("fock", 9, ("dyne", "layout"))]),
                  (3, 0, "p3", [("fock", 9, ("dyne", "count", "layout")), ("gaussian", None, ("dyne", "layout"))])]
     for (n, depth, prefix, cfgs) in plans:
-        r = chk.tlc("MC_Meas", constants={"N": n, "Depth": depth, "AlphaId": "d", "PrefixId": prefix, "KNum": 1, "KDen": 1, "EMIT": True},
+        r = chk.tlc("MC_Meas", spec="SpecM", constants={"N": n, "Depth": depth, "AlphaId": "d", "PrefixId": prefix, "KNum": 1, "KDen": 1, "EMIT": True},
                     invariants=["MeasuredModeReset", "ConditionalPhysical", "HetPhysical", "BornVarPositive", "CovIndependentOfOutcome", "EmitMeas"])
         items = r.json
         for cfg, cutoff, parts in cfgs:
             sel = [it for it in items if lattice.supported(it["hist"], cfg)]
             _CFG.update(cfg=cfg, cutoff=cutoff, n=n, parts=parts)
-            res = common.pmap(_run_one, sel, chunksize=1)
-            for it, o in zip(sel, res):
+            nsl = 12 if len(sel) < 8 else 2            # few pre-states: split their cases over the workers
+            jobs = [(it, k, nsl) for it in sel for k in range(nsl)]
+            res = common.pmap(_run_one, jobs, chunksize=1)
+            for (it, _, _), o in zip(jobs, res):
                 det0 = {"config": cfg, "cutoff": cutoff, "program": short(it["hist"])}
                 if not o["ok"]:
                     chk.violation("UnexpectedError", {"backend": cfg, "error": o["err"]}, dict(det0, msg=o["msg"], tb=o["tb"]))
